@@ -67,13 +67,13 @@ func OrInt32(addr *int32, mask int32) int32 {
 // Int32 mirrors atomic.Int32.
 type Int32 struct{ v int32 }
 
-func (x *Int32) Load() int32                       { return LoadInt32(&x.v) }
-func (x *Int32) Store(val int32)                   { StoreInt32(&x.v, val) }
-func (x *Int32) Swap(new int32) int32                { return SwapInt32(&x.v, new) }
+func (x *Int32) Load() int32                        { return LoadInt32(&x.v) }
+func (x *Int32) Store(val int32)                    { StoreInt32(&x.v, val) }
+func (x *Int32) Swap(new int32) int32               { return SwapInt32(&x.v, new) }
 func (x *Int32) CompareAndSwap(old, new int32) bool { return CompareAndSwapInt32(&x.v, old, new) }
-func (x *Int32) Add(delta int32) int32               { return AddInt32(&x.v, delta) }
-func (x *Int32) And(mask int32) int32                { return AndInt32(&x.v, mask) }
-func (x *Int32) Or(mask int32) int32                 { return OrInt32(&x.v, mask) }
+func (x *Int32) Add(delta int32) int32              { return AddInt32(&x.v, delta) }
+func (x *Int32) And(mask int32) int32               { return AndInt32(&x.v, mask) }
+func (x *Int32) Or(mask int32) int32                { return OrInt32(&x.v, mask) }
 
 func LoadInt64(addr *int64) int64 {
 	vsched.Point(vsched.KLoad, unsafe.Pointer(addr))
@@ -122,13 +122,13 @@ func OrInt64(addr *int64, mask int64) int64 {
 // Int64 mirrors atomic.Int64.
 type Int64 struct{ v int64 }
 
-func (x *Int64) Load() int64                       { return LoadInt64(&x.v) }
-func (x *Int64) Store(val int64)                   { StoreInt64(&x.v, val) }
-func (x *Int64) Swap(new int64) int64                { return SwapInt64(&x.v, new) }
+func (x *Int64) Load() int64                        { return LoadInt64(&x.v) }
+func (x *Int64) Store(val int64)                    { StoreInt64(&x.v, val) }
+func (x *Int64) Swap(new int64) int64               { return SwapInt64(&x.v, new) }
 func (x *Int64) CompareAndSwap(old, new int64) bool { return CompareAndSwapInt64(&x.v, old, new) }
-func (x *Int64) Add(delta int64) int64               { return AddInt64(&x.v, delta) }
-func (x *Int64) And(mask int64) int64                { return AndInt64(&x.v, mask) }
-func (x *Int64) Or(mask int64) int64                 { return OrInt64(&x.v, mask) }
+func (x *Int64) Add(delta int64) int64              { return AddInt64(&x.v, delta) }
+func (x *Int64) And(mask int64) int64               { return AndInt64(&x.v, mask) }
+func (x *Int64) Or(mask int64) int64                { return OrInt64(&x.v, mask) }
 
 func LoadUint32(addr *uint32) uint32 {
 	vsched.Point(vsched.KLoad, unsafe.Pointer(addr))
@@ -177,13 +177,13 @@ func OrUint32(addr *uint32, mask uint32) uint32 {
 // Uint32 mirrors atomic.Uint32.
 type Uint32 struct{ v uint32 }
 
-func (x *Uint32) Load() uint32                       { return LoadUint32(&x.v) }
-func (x *Uint32) Store(val uint32)                   { StoreUint32(&x.v, val) }
-func (x *Uint32) Swap(new uint32) uint32                { return SwapUint32(&x.v, new) }
+func (x *Uint32) Load() uint32                        { return LoadUint32(&x.v) }
+func (x *Uint32) Store(val uint32)                    { StoreUint32(&x.v, val) }
+func (x *Uint32) Swap(new uint32) uint32              { return SwapUint32(&x.v, new) }
 func (x *Uint32) CompareAndSwap(old, new uint32) bool { return CompareAndSwapUint32(&x.v, old, new) }
-func (x *Uint32) Add(delta uint32) uint32               { return AddUint32(&x.v, delta) }
-func (x *Uint32) And(mask uint32) uint32                { return AndUint32(&x.v, mask) }
-func (x *Uint32) Or(mask uint32) uint32                 { return OrUint32(&x.v, mask) }
+func (x *Uint32) Add(delta uint32) uint32             { return AddUint32(&x.v, delta) }
+func (x *Uint32) And(mask uint32) uint32              { return AndUint32(&x.v, mask) }
+func (x *Uint32) Or(mask uint32) uint32               { return OrUint32(&x.v, mask) }
 
 func LoadUint64(addr *uint64) uint64 {
 	vsched.Point(vsched.KLoad, unsafe.Pointer(addr))
@@ -232,13 +232,13 @@ func OrUint64(addr *uint64, mask uint64) uint64 {
 // Uint64 mirrors atomic.Uint64.
 type Uint64 struct{ v uint64 }
 
-func (x *Uint64) Load() uint64                       { return LoadUint64(&x.v) }
-func (x *Uint64) Store(val uint64)                   { StoreUint64(&x.v, val) }
-func (x *Uint64) Swap(new uint64) uint64                { return SwapUint64(&x.v, new) }
+func (x *Uint64) Load() uint64                        { return LoadUint64(&x.v) }
+func (x *Uint64) Store(val uint64)                    { StoreUint64(&x.v, val) }
+func (x *Uint64) Swap(new uint64) uint64              { return SwapUint64(&x.v, new) }
 func (x *Uint64) CompareAndSwap(old, new uint64) bool { return CompareAndSwapUint64(&x.v, old, new) }
-func (x *Uint64) Add(delta uint64) uint64               { return AddUint64(&x.v, delta) }
-func (x *Uint64) And(mask uint64) uint64                { return AndUint64(&x.v, mask) }
-func (x *Uint64) Or(mask uint64) uint64                 { return OrUint64(&x.v, mask) }
+func (x *Uint64) Add(delta uint64) uint64             { return AddUint64(&x.v, delta) }
+func (x *Uint64) And(mask uint64) uint64              { return AndUint64(&x.v, mask) }
+func (x *Uint64) Or(mask uint64) uint64               { return OrUint64(&x.v, mask) }
 
 func LoadUintptr(addr *uintptr) uintptr {
 	vsched.Point(vsched.KLoad, unsafe.Pointer(addr))
@@ -287,13 +287,13 @@ func OrUintptr(addr *uintptr, mask uintptr) uintptr {
 // Uintptr mirrors atomic.Uintptr.
 type Uintptr struct{ v uintptr }
 
-func (x *Uintptr) Load() uintptr                       { return LoadUintptr(&x.v) }
-func (x *Uintptr) Store(val uintptr)                   { StoreUintptr(&x.v, val) }
-func (x *Uintptr) Swap(new uintptr) uintptr                { return SwapUintptr(&x.v, new) }
+func (x *Uintptr) Load() uintptr                        { return LoadUintptr(&x.v) }
+func (x *Uintptr) Store(val uintptr)                    { StoreUintptr(&x.v, val) }
+func (x *Uintptr) Swap(new uintptr) uintptr             { return SwapUintptr(&x.v, new) }
 func (x *Uintptr) CompareAndSwap(old, new uintptr) bool { return CompareAndSwapUintptr(&x.v, old, new) }
-func (x *Uintptr) Add(delta uintptr) uintptr               { return AddUintptr(&x.v, delta) }
-func (x *Uintptr) And(mask uintptr) uintptr                { return AndUintptr(&x.v, mask) }
-func (x *Uintptr) Or(mask uintptr) uintptr                 { return OrUintptr(&x.v, mask) }
+func (x *Uintptr) Add(delta uintptr) uintptr            { return AddUintptr(&x.v, delta) }
+func (x *Uintptr) And(mask uintptr) uintptr             { return AndUintptr(&x.v, mask) }
+func (x *Uintptr) Or(mask uintptr) uintptr              { return OrUintptr(&x.v, mask) }
 
 func LoadPointer(addr *unsafe.Pointer) unsafe.Pointer {
 	vsched.Point(vsched.KLoad, unsafe.Pointer(addr))
